@@ -233,6 +233,9 @@ def shards(tier):
     for circ in (False, True):
         for chunk in range(N_CHUNKS):
             out.append([6, circ, "coincide4", chunk, tier])
+    for circ in (False, True):
+        for chunk in range(N_CHUNKS):
+            out.append([8, circ, "hybrids5", chunk, tier])
     plans = [(6, False, 3), (6, True, 3)]
     if tier == "thorough":
         plans += [(6, False, 4), (6, True, 4), (7, True, 3)]
@@ -278,9 +281,53 @@ def run_coincide4(shard):
     return res
 
 
+HYBRID_NEIGHBOURHOODS = ((0, 0), (1, 1), (2, 2), (3, 3))
+
+
+def two_hybrids_plus_one(nslots, circ):
+    """five protoclusters: two chemical hybrid pairs (a p- and a q-protocluster sharing the defining gene of an even slot) whose
+    neighbourhoods differ in size, plus every further protocluster of the menu - the candidate list the interleaved / neighbouring
+    scans walk is then ordered by extent while their cores are ordered differently"""
+    L = nslots * P.SLOT
+    extra = [m for m in P.protocluster_menu(nslots, circ, max_core=2, neighbourhoods=((0, 0), (1, 1)))
+             if P.make_protocluster(L, circ, m) is not None]
+    evens = [s for s in range(0, nslots - 1, 2)]
+    for s1, s2 in itertools.combinations(evens, 2):
+        for n1 in HYBRID_NEIGHBOURHOODS:
+            for n2 in HYBRID_NEIGHBOURHOODS:
+                pair1 = [[s1, s1, n1[0], n1[1], "p"], [s1, s1 + 1, n1[0], n1[1], "q"]]
+                pair2 = [[s2, s2, n2[0], n2[1], "p"], [s2, s2 + 1, n2[0], n2[1], "q"]]
+                if any(P.make_protocluster(L, circ, m) is None for m in pair1 + pair2):
+                    continue
+                for x in extra:
+                    if x in pair1 or x in pair2:
+                        continue
+                    yield pair1 + pair2 + [x]
+
+
+def run_two_hybrids(shard):
+    nslots, circ, _, chunk, tier = shard
+    res = Result()
+    for index, specs in enumerate(two_hybrids_plus_one(nslots, circ)):
+        if index % N_CHUNKS != chunk:
+            continue
+        res.evals += 1
+        res.nontrivial += 1
+        fails = check_config(nslots, circ, specs, orders=[(0, 1, 2, 3, 4), (4, 3, 2, 1, 0), (2, 4, 0, 3, 1)], stats=res.buckets)
+        res.outcomes[("hybrids5", tuple(sorted(c.split(":")[0] for c, _ in fails)))] += 1
+        if fails or res.evals % 1009 == 1:
+            case = {"nslots": nslots, "circ": circ, "specs": specs}
+            for clause, detail in fails:
+                res.fail(case, clause, detail)
+            res.sample(case)
+    return res
+
+
 def run_shard(shard):
     if shard[2] == "coincide4":
         return run_coincide4(shard)
+    if shard[2] == "hybrids5":
+        return run_two_hybrids(shard)
     nslots, circ, size, chunk, tier = shard
     res = Result()
     menu = menu_for(nslots, circ, tier, size)
